@@ -26,6 +26,7 @@ pub const Y_ABORT_SEARCH: u8 = 7;
 pub const Y_CUTOFF_POLL: u8 = 8;
 pub const Y_CACHE_READ: u8 = 9;
 pub const Y_CACHE_WRITE: u8 = 10;
+pub const Y_DOMINANCE: u8 = 11;
 
 fn site_code(s: Site) -> u8 {
     match s {
@@ -81,7 +82,7 @@ pub struct SchedReport {
     pub grants_by_worker: Vec<u64>,
     /// per worker: number of nodes it started to process (grants of the first best_lb critical section)
     pub nodes_by_worker: Vec<u64>,
-    pub yields_by_site: [u64; 11],
+    pub yields_by_site: [u64; 12],
 }
 impl SchedReport {
     pub fn signature(&self) -> u64 {
@@ -280,7 +281,7 @@ impl Sched {
     fn yield_at(&self, w: usize, site: u8, critical: bool) {
         let mut g = self.inner.lock().unwrap();
         if !critical {
-            if (site == Y_CUTOFF_POLL && !g.use_poll_yields) || ((site == Y_CACHE_READ || site == Y_CACHE_WRITE) && !g.use_cache_yields) { return; }
+            if (site == Y_CUTOFF_POLL && !g.use_poll_yields) || ((site == Y_CACHE_READ || site == Y_CACHE_WRITE || site == Y_DOMINANCE) && !g.use_cache_yields) { return; }
         }
         if g.free_for_all {
             if critical { IN_CRIT.with(|c| c.set(true)); }
@@ -354,7 +355,7 @@ impl Sched {
         }
         if site == Y_GET_WORKLOAD { g.report.grants_by_worker[chosen as usize] += 1; }
         if site == Y_BEST_LB1 { g.report.nodes_by_worker[chosen as usize] += 1; }
-        if (site as usize) < 11 { g.report.yields_by_site[site as usize] += 1; }
+        if (site as usize) < 12 { g.report.yields_by_site[site as usize] += 1; }
         let prev = g.last_run;
         g.report.steps.push(StepRec { chosen, site, candidates: cands, prev, default });
         g.last_run = Some(chosen);
